@@ -82,7 +82,8 @@ def gen_dicts(rnd, n):
         elif kind == 2:
             code = rnd.choice(pool)[: rnd.randrange(0, 60)] + "".join(rnd.choice(alph) for _ in range(rnd.randrange(0, 8)))
         elif kind == 3:
-            code = rnd.choice(alph) * rnd.randrange(0, 300)
+            # long texts too (the JSON form of a non-ASCII character is six bytes): up to a few hundred kilobytes
+            code = rnd.choice(alph) * rnd.choice([rnd.randrange(0, 300), 5000, 30000, 120000])
         elif kind == 4:
             code = "".join(chr(rnd.randrange(32, 0x2FFF)) for _ in range(rnd.randrange(1, 30)))  # below the surrogate range
         else:
@@ -153,6 +154,7 @@ def check_c18(tier, t0):
     rnd = random.Random(seed() + 18)
     dicts = gen_dicts(rnd, 400 if tier == "thorough" else 120)
     obs = []
+    obs_dicts = []
     texts = []
     rec = {}
 
@@ -185,11 +187,23 @@ def check_c18(tier, t0):
                 back = "!raised %s: %s" % (type(e).__name__, e)
             nrt += 1
             if back != dct:
-                rep.violation(["dict"], "ROUND_TRIP", {"property": "C18", "dict": dct, "encoded": text, "decoded": back},
+                rep.violation(["dict"], "ROUND_TRIP", {"property": "C18", "dict_head": str(dct)[:300], "encoded_head": text[:200], "decoded_head": str(back)[:300]},
                               "decode_data(encode_data(d)) != d for d=%r" % (str(dct)[:80]))
-            if "raw" in rec:
+            elif isinstance(back, dict):
+                # the page changes what it got (data.compact = true) and may open the same link again in the same process
+                back["compact"] = "changed by the caller"
+                back["added"] = 1
+                try:
+                    again = T.decode_data(text)
+                except Exception as e:
+                    again = "!raised %s: %s" % (type(e).__name__, e)
+                if again != dct:
+                    rep.violation(["dict"], "ROUND_TRIP_SECOND_DECODE", {"property": "C18", "dict_head": str(dct)[:300], "second_decode_head": str(again)[:300]},
+                                  "decoding the same link again after the caller changed the first result gives %r" % (str(again)[:80]))
+            if "raw" in rec and len(rec["raw"]) <= 1500:   # long payloads are judged black-box only (TLC evaluates the short ones)
                 obs.append({"raw": list(rec["raw"]), "enc": [ord(c) for c in text], "back": list(rec.get("back", b"")) if "back" in rec else [-1]})
-                texts.append(text)
+                obs_dicts.append(dct)
+            texts.append(text)
     finally:
         zlib.compress, zlib.decompress = real_compress, real_decompress
     if not obs:
@@ -209,7 +223,7 @@ def check_c18(tier, t0):
             raise MachineryError("no verdict for observation %d" % k)
         for v in vs:
             if v != "OK":
-                rep.violation(["dict"], v, {"property": "C18", "dict": dicts[k - 1] if k - 1 < len(dicts) else None, "observation": obs[k - 1]},
+                rep.violation(["dict"], v, {"property": "C18", "dict": str(obs_dicts[k - 1])[:400], "observation": obs[k - 1]},
                               "observation %d rejected by the specification: %s" % (k, v))
     # ---- the page's URL handling, with the real URL implementation of node
     d = workdir("C18_url")
@@ -232,7 +246,7 @@ def check_c18(tier, t0):
                 "real dictionaries (corpus sources, Unicode incl. astral planes, NUL, BOM; no lone surrogates: not Unicode text, option values, nesting) recorded at the "
                 "zlib boundary and validated as traces by ShareLinkTrace.tla" % (maxlen, byteset),
         "samples": [{"raw_bytes": scens[len(scens) // 2]["raw"], "encoded": "".join(chr(c) for c in scens[len(scens) // 2]["enc"])},
-                    {"dict": dicts[1], "encoded": texts[1] if len(texts) > 1 else None}],
+                    {"dict": str(dicts[1])[:400], "encoded": (texts[1][:200] if len(texts) > 1 else None)}],
         "binding_self_test": "corrupted observation rejected",
         "known_findings_hit": sorted(rep.known),
     }
